@@ -54,6 +54,30 @@ type config struct {
 	// size of the type / fXX.FromString, which C04 verifies); ok = false: not a number of that type (malformed or out
 	// of range).  The library's operand conversion (floatFrom / FixedFrom on strings) is never relied upon.
 	conv func(s string) (any, bool)
+	// fromBool is the harness's OWN conversion of a comparison/logical result that is used as a number:
+	// true is the number 1 of the evaluator's type (f64.From[T,int](1), not the raw fixed-point 1), false is 0.
+	fromBool func(b bool) any
+}
+
+func fixedBool[T fixed.Dx](b bool) any {
+	if b {
+		return f64.From[T, int](1)
+	}
+	return f64.Int[T](0)
+}
+
+func float64Bool(b bool) any {
+	if b {
+		return float64(1)
+	}
+	return float64(0)
+}
+
+func float32Bool(b bool) any {
+	if b {
+		return float32(1)
+	}
+	return float32(0)
 }
 
 // opaque is a text the evaluator's number type cannot represent: the library sees "not a number" whatever its own
@@ -114,19 +138,19 @@ func floatIsZero(bits int) func(v any) (bool, bool) {
 func configs() []*config {
 	cs := []*config{
 		{name: "d4z", zero: true, fresh: func() *eval.Evaluator { return eval.NewFixedEvaluator[fixed.D4](valueResolver{}, true) },
-			isZero: fixedIsZero[fixed.D4], conv: fixedConv[fixed.D4]},
+			isZero: fixedIsZero[fixed.D4], conv: fixedConv[fixed.D4], fromBool: fixedBool[fixed.D4]},
 		{name: "d4e", zero: false, fresh: func() *eval.Evaluator { return eval.NewFixedEvaluator[fixed.D4](valueResolver{}, false) },
-			isZero: fixedIsZero[fixed.D4], conv: fixedConv[fixed.D4]},
+			isZero: fixedIsZero[fixed.D4], conv: fixedConv[fixed.D4], fromBool: fixedBool[fixed.D4]},
 		{name: "d2z", zero: true, fresh: func() *eval.Evaluator { return eval.NewFixedEvaluator[fixed.D2](valueResolver{}, true) },
-			isZero: fixedIsZero[fixed.D2], conv: fixedConv[fixed.D2]},
+			isZero: fixedIsZero[fixed.D2], conv: fixedConv[fixed.D2], fromBool: fixedBool[fixed.D2]},
 		{name: "f64z", zero: true, fresh: func() *eval.Evaluator { return eval.NewFloatEvaluator[float64](valueResolver{}, true) },
-			isZero: floatIsZero(64), conv: float64Conv},
+			isZero: floatIsZero(64), conv: float64Conv, fromBool: float64Bool},
 		{name: "f64e", zero: false, fresh: func() *eval.Evaluator { return eval.NewFloatEvaluator[float64](valueResolver{}, false) },
-			isZero: floatIsZero(64), conv: float64Conv},
+			isZero: floatIsZero(64), conv: float64Conv, fromBool: float64Bool},
 		{name: "f32e", zero: false, fresh: func() *eval.Evaluator { return eval.NewFloatEvaluator[float32](valueResolver{}, false) },
-			isZero: floatIsZero(32), conv: float32Conv},
+			isZero: floatIsZero(32), conv: float32Conv, fromBool: float32Bool},
 		{name: "f32z", zero: true, fresh: func() *eval.Evaluator { return eval.NewFloatEvaluator[float32](valueResolver{}, true) },
-			isZero: floatIsZero(32), conv: float32Conv},
+			isZero: floatIsZero(32), conv: float32Conv, fromBool: float32Bool},
 	}
 	for _, c := range cs {
 		c.reused = c.fresh()
@@ -212,11 +236,14 @@ func (w *walker) operator(sym string) *eval.Operator {
 
 // num converts a text operand with the harness's own conversion: a number of the evaluator's type, or opaque.
 func (w *walker) num(v any) any {
-	if s, ok := v.(string); ok {
-		if x, good := w.c.conv(s); good {
+	switch a := v.(type) {
+	case string:
+		if x, good := w.c.conv(a); good {
 			return x
 		}
-		return opaque(s)
+		return opaque(a)
+	case bool:
+		return w.c.fromBool(a)
 	}
 	return v
 }
@@ -274,15 +301,17 @@ func (w *walker) call(n *node) (any, error) {
 			if v == nil {
 				return nil, errInvalid
 			}
-			if s, isText := v.(string); isText {
-				switch {
-				case n.name != "if": // a number is expected
-					return w.num(s), nil
-				case i == 0: // condition: a number if it is one, else judged as a string
+			switch {
+			case n.name != "if": // a number is expected: texts and booleans are converted by the harness
+				return w.num(v), nil
+			case i == 0: // condition: a number if it is one, else judged as a string
+				if s, isText := v.(string); isText {
 					if x, good := w.c.conv(s); good {
 						return x, nil
 					}
+					return s, nil
 				}
+				return w.num(v), nil
 			}
 			return v, nil
 		}}}
